@@ -81,14 +81,22 @@ func hWrap(raw []byte) []byte { return append(u32le(len(raw)), raw...) }
 
 // HCodecWriter implements rac.CodecWriter.
 type HCodecWriter struct {
-	Codec  rac.Codec
-	OOB    bool
-	Cut_   bool
-	buf    []byte
-	closed int
+	Codec rac.Codec
+	OOB   bool
+	Cut_  bool
+	// FailClose makes Close return errHFailClose.
+	FailClose bool
+	buf       []byte
+	closed    int
 }
 
-func (w *HCodecWriter) Close() error           { w.closed++; return nil }
+func (w *HCodecWriter) Close() error {
+	w.closed++
+	if w.FailClose {
+		return errHFailClose
+	}
+	return nil
+}
 func (w *HCodecWriter) Clone() rac.CodecWriter { c := *w; c.buf = nil; return &c }
 func (w *HCodecWriter) CanCut() bool           { return w.Cut_ }
 
